@@ -34,6 +34,15 @@ func (st *State) unop(fr *frame, x *ssa.UnOp) Value {
 		}
 	case token.XOR:
 		t := x.X.Type()
+		if vt, ok := v.(*Term); ok && vt.Sort == SInt {
+			// integer encoding: ^x is -x-1 (signed) or max-x (unsigned): linear, no bit-vector detour
+			bits, signed := intInfo(t)
+			if signed {
+				return IntSub(IntNeg(vt), IntT64(1))
+			}
+			_, hi := intRange(bits, false)
+			return IntSub(IntT(hi), vt)
+		}
 		return st.binop(token.XOR, v, st.E.intTerm(big.NewInt(-1), t), t, t)
 	case token.ARROW:
 		return st.E.chanRecv(st, fr, v, x.CommaOk, x.Type())
